@@ -52,35 +52,23 @@ def appid_reuse():
         (("stop", 0), [0, 0, 0])])
 
 
-def failed_pair_leak(env):
-    """two hosts; the receiver's node has no room, so the creator's pair creation fails after its two temporary qubits
-    were made; then the creator's application stops.  Returns (what, replay) when qubits stay behind, else None"""
-    import random
-    import net_sync
-    import qasm_epr as EP
-    from netqasm.sdk.shared_memory import SharedMemoryManager
-    SharedMemoryManager.reset_memories()
-    env.clock.stopped = False
-    names = ["N0", "N1"]
-    net = net_sync.make_network(env, names, [4, 0], [10, 10])
-    Q.make_hosts(env, net)
-
-    def creator(conn, eprs):
-        eprs[0].create_keep(1)
-        conn.flush()
-    msgs = EP.sdk_messages(names, "N0", 0, [("N1", 0, 0)], creator)
-    Q.script_coins(env, [0] * 16, len(env.tap))
-    out = EP.run_concurrently(env, net, {0: msgs}, random.Random(1))
-    Q.script_coins(env, None, 0)
-    replies = [(type(m).__name__, rep) for (m, rep, esc) in out[0]]
-    counts = [(len(n.virtQubits), len(n.simQubits), len(n.registers)) for n in net.nodes]
-    stop_ok = replies and replies[-1][0] == "StopAppMessage" and replies[-1][1] and replies[-1][1][-1][0] == "done"
-    if counts[0] != (0, 0, 0):
-        return ("create_keep(1) towards a full node fails after its two temporary qubits were created; StopApp %s but the creator's node keeps "
-                "(held, sims, regs) = %r, qubitList ids %r" % ("completes" if stop_ok else "fails", counts[0], sorted(net.hosts[0].factory.qubitList)),
-                {"caps": [[4, 10], [0, 10]], "program": "N0: create_keep(1) with N1 on sockets (0,0); then the application ends (StopApp)",
-                 "replies": replies, "counts_after": counts})
-    return None
+def failed_pair_leak(env, rng, thorough):
+    """pair creations that cannot be completed (harness/qasm_eprfail.py): the receiver's node is full so the hand-over is refused
+    after both temporary qubits exist; the creator's node (qubit or register limit) has room for one more qubit only, or for none;
+    a measure-directly request that fails after both exist; with and without other qubits held by the creator before and after;
+    plus requests that succeed.  Oracle on the implementation alone (qasm_eprfail.judge): the failing request answers an error,
+    and AFTER THE FAILED REQUEST as well as AFTER StopApp every node's (held, simulated, registers, register counter) equal those
+    before the request / before the application.  Returns (runs, [(run, problems)])"""
+    import qasm_eprfail as F
+    runs, found = [], []
+    scs = F.fixed_scenarios() + [F.random_scenario(rng) for _ in range(160 if thorough else 30)]
+    for sc in scs:
+        r = F.run(env, sc)
+        runs.append(r)
+        probs = F.judge(r)
+        if probs:
+            found.append((r, probs))
+    return runs, found
 
 
 def node_counts(net):
@@ -292,7 +280,13 @@ def run(ctx):
                 "per-node counts (held, simulated, registers) equal those before the first message; Coq decides model = implementation per message "
                 "(Qasm/Cases.v); several nodes: generations of create-and-keep requests over 2-3 nodes, gates between the halves a node holds (repeater: both "
                 "simulated elsewhere), measurements, frees, stops in random order, counts incl. the register counter back at zero after every generation; "
+                "pair creations that cannot be completed (receiver full; room / register for one more qubit or none; measure-directly; creator "
+                "holding other qubits; over the real PB) and successful ones: error reply, node counts after the failed request and after StopApp as "
+                "before, Coq decides model = implementation per message incl. the removal of the temporaries (Qasm/EprCases.v); "
                 "distinct = distinct (capacities, message, coins)")
+    ctx.trusted.append("harness/qasm_eprfail.py: maps the tap records get_virt_num + netqasm_send_epr_half to Model V's OSend (the handle is the one "
+                       "get_virt_num was called on, an accepted hand-over is recorded as OkNone), and the SDK's Qubit() / measure() to "
+                       "QAlloc+QInit / QMeas+QFree; the receive deques are read from virtualNode.qubit_recv_epr")
     common.check_properties_file(ctx)
     logging.disable(logging.CRITICAL)
     env = N.setup()
@@ -311,7 +305,7 @@ def run(ctx):
         name, caps, script = appid_reuse()
         reuse = QR.replay(env, caps, script)
         reuse.scenario = name
-        leak = failed_pair_leak(env)
+        leak_runs, leak_found = failed_pair_leak(env, rng, t)
         epr_found = []
         plans = [REPEATER, dict(REPEATER, pb=True), HOLES, dict(HOLES, pb=True)] + [random_epr_plan(rng, t) for _ in range(400 if t else 24)]
         for plan in plans:
@@ -386,13 +380,45 @@ def run(ctx):
         else:
             ctx.broken_explained_by_known = True
     logging.disable(logging.NOTSET)
-    if leak is not None:
-        ctx.obligation("oracle C11:epr-temporaries", False, leak[0])
-        if ctx.report("C11:epr-temporaries", leak[0], leak[1], found_input=True):
+    # ---- pair creations that fail: oracle, then the correspondence of the model of cmd_epr's cleanup with the real handler ---------
+    import qasm_eprfail as F
+    for r in leak_runs:
+        sc = r["sc"]
+        ctx.count("pair_creation_scenarios")
+        ctx.count("pair_creation_" + sc["kind"].replace("-", "_"))
+        ctx.count("pair_creation_over_real_PB", 1 if sc["pb"] else 0)
+        ctx.count("pair_creation_creator_holds_other_qubits", 1 if sc["pre"] else 0)
+        ctx.count("pair_creation_measure_directly", 1 if sc["type"] == "M" else 0)
+        ctx.count("pair_creation_cleanup_measurements",
+                  sum(1 for m in r["records"] if m["role"] == "create" for c in m["calls"] if c["method"] == "measure"))
+        ctx.case(("pair-creation", str(sorted(sc.items()))), nontrivial=True)
+    need_k = ["pair_creation_receiver_full", "pair_creation_room_for_one", "pair_creation_register_for_one", "pair_creation_room_for_none",
+              "pair_creation_not_adjacent", "pair_creation_md_rotation", "pair_creation_ok", "pair_creation_creator_holds_other_qubits", "pair_creation_measure_directly"]
+    ctx.obligation("failing pair creations exercised: receiver full, room / register for one more qubit only, none, measure-directly; creator holding "
+                   "other qubits; successful requests for contrast", all(ctx.coverage.get(k) for k in need_k),
+                   "never hit: %r" % [k for k in need_k if not ctx.coverage.get(k)])
+    seen_leak = set()
+    for r, probs in leak_found:
+        key = "C11:" + probs[0]["kind"]
+        if key in seen_leak:
+            continue
+        seen_leak.add(key)
+        what = "%s -- %s" % (probs[0]["what"], F.describe(r["sc"]))
+        ctx.obligation("oracle %s" % key, False, what)
+        if ctx.report(key, what, F.replay_obj(r), found_input=True):
             found = True
         else:
             ctx.broken_explained_by_known = True
-    ctx.count("failed_pair_creation_scenarios")
+    if not leak_found:
+        ctx.obligation("oracle (pair creation): a request that cannot be completed answers an error and leaves every node's (held, simulated, registers, "
+                       "register counter) as before the request; after StopApp the creator's node is as before the application (%d scenarios)"
+                       % len(leak_runs), True)
+    bad_epr = F.correspond(ctx, leak_runs)
+    if bad_epr and not leak_found:
+        r, i = bad_epr[0]
+        if ctx.report("correspondence:C11-pair-creation", "the model of cmd_epr (EprGate.cmd_epr_keep inside TeardownNet.nstep_r) and the implementation disagree "
+                      "(the count oracle is satisfied on the explored scenarios)", dict(F.replay_obj(r), first_disagreeing_message=i), found_input=False):
+            found = True
     ctx.obligation("oracle (several nodes): generations of pair requests, repeater gates, frees and stops in any order leave every node at (0, 0, 0, 0); "
                    "a stop never changes what other nodes hold", not epr_found, epr_found[0][1][0]["what"] if epr_found else "")
     for plan, probs in epr_found[:1]:
